@@ -23,6 +23,7 @@ func init() {
 }
 
 func runC01(c *Ctx) {
+	defer c08SizeGuard(c, "C01.27")
 	defer ruleErrorsNotDropped(c, "C01.26", "storage.(*BTree).insert", "storage.(*RelationService).Insert", "storage.(*RelationService).MarkDeleted", "storage.(*RelationService).FlushWALBatch")
 	defer ruleLengthIsByteLength(c, "C01.25")
 	c01Tombstone(c, "C01.1")
